@@ -1,5 +1,6 @@
 import CstModel.Driver.TextArea
 import CstModel.Model.Serde
+import CstModel.Model.Markers
 import CstModel.Generated.SourceFacts
 namespace Cst.Drv
 
@@ -81,6 +82,16 @@ def serdeStep (s : DState) : List String → Option (DState × String)
       | _, _ => some (s, "bad-op")
     | _ => some (s, "bad-op")
   | ["deser_raw", _, _] => some (s, "err")
+  | ["marker", kind, m, ds, dy, rs, ry] =>
+    let F : MarkerFacts := ⟨SourceFacts.nodeSendNeedsDSend, SourceFacts.nodeSendNeedsDSync, SourceFacts.nodeSyncNeedsDSend,
+      SourceFacts.nodeSyncNeedsDSync, SourceFacts.ctorNeedsRSend, SourceFacts.ctorNeedsRSync⟩
+    let b (x : String) := x == "1"
+    let ok :=
+      match kind with
+      | "green" => SourceFacts.greenTokenMarkersUnconditional
+      | "resolver" => accepted F (m == "sync") (b ds) (b dy) (b rs) (b ry)
+      | _ => handleOk F (m == "sync") (b ds) (b dy)
+    some (s, if ok then "accept" else "reject")
   | _ => none
 
 end Cst.Drv
